@@ -230,6 +230,15 @@ def rr_part(res, pid):
            for j, (r_, rq_) in enumerate([(2, 1), (3, 1), (3, 2)] if res.tier == "thorough" else [(2, 1), (3, 2)])]
     out = qlib.run_harness("quorum", [qlib.strip(q) for q in scs], jobs=3)
     n = 0
+    cases = []
+    failed = False
+
+    def cp(c):
+        if not c["found"]:
+            return "None"
+        if c.get("corrupt"):
+            return "(Some ([255%N], (-1)%Z))"       # bytes that do not decode: no model copy equals it
+        return "(Some (%s, %s))" % (cbytes(c.get("val", "")), cZ(c.get("ts", 0)))
     for q in scs:
         ob = out[q["id"]]
         if ob.get("env"):
@@ -239,11 +248,28 @@ def rr_part(res, pid):
             if i >= len(ob.get("steps", [])):
                 break
             n += 1
-            m = check_get(q, st, ob["steps"][i])
+            o = ob["steps"][i]
+            m = check_get(q, st, o)
             if m:
+                failed = True
                 res.violation({"kind": "impl-violates-property", "part": "read-repair", "scenario": dict(qlib.strip(q), steps=[st]),
-                               "impl_trace": ob["steps"][i], "predicate": {"name": "read with ReadRepair on", "verdict": m}, "seed": res.seed})
+                               "impl_trace": o, "predicate": {"name": "read with ReadRepair on", "verdict": m}, "seed": res.seed})
                 break
+            nb, exp, down, local, bs = get_layout(q, st, o)
+            loc = copt(qlib.centry("p@%d" % local, 0, local)) if local is not None else "None"
+            bl = clist("(%s, %s)" % (cbool(j not in down), copt(qlib.centry("b%d@%d" % (j, bs[j]), 0, bs[j])) if bs[j] is not None else "None") for j in range(nb))
+            if o["res"] == "ok":
+                g = "(GValue %s %s)" % (cbytes(o.get("val", "")), cZ(o.get("ts", 0)))
+            else:
+                g = {"notfound": "GNotFound", "readquorum": "GReadQuorum"}.get(o["res"], "GOther")
+            cases.append(((q, st, o), "CGetRR %s far_future_ms %s %s %s %s %s" % (cnat(q["rq"]), loc, bl, g, cp(o["p"]), clist(cp(b) for b in o["b"]))))
+    # the same steps against Model/Quorum.v cluster_get with ReadRepair on (the subject of C06_read_repair): result and every copy afterwards
+    mism, _secs = qlib.coq_mismatches("%src" % pid.lower(), HEADER, "qcase", cases, shard=60)
+    if mism and not failed:
+        (q, st, o), mobs = mism[0]
+        res.violation({"kind": "model-vs-impl", "part": "read-repair", "failed": "correspondence Model/QuorumRun.v (CGetRR: cluster_get with read repair) vs the implementation",
+                       "scenario": dict(qlib.strip(q), steps=[st]), "impl_trace": o, "model_obs": mobs, "seed": res.seed}, no_input=True)
+    res.coverage["read_repair_model_mismatches"] = len(mism)
     res.coverage["read_repair_steps"] = n
     return n
 
